@@ -1284,7 +1284,11 @@ class Interp:
             items = self.iterate(container)
             return ops.r_or([ops.r_or([self.identical(x, y), self.eq(x, y)]) for y in items])
         if isinstance(container, dict):
+            if self._has_sym(x) and not isinstance(x, Obj):
+                return ops.r_or([self.eq(x, k) for k in container])
             self.check_key(x)
+            if isinstance(x, Obj):
+                return any(k is x for k in container)
             return self.native(lambda: x in container)
         if isinstance(container, (set, frozenset)):
             if self._has_sym(x):
@@ -1478,6 +1482,13 @@ class Interp:
                 idx = int(idx)
             return self.native(lambda: v[idx])
         if isinstance(v, dict):
+            if self._has_sym(idx) and not isinstance(idx, Obj):
+                # symbolic key (e.g. a merged tuple): fork over the concrete keys it can equal
+                for k in v:
+                    r = self.eq(idx, k)
+                    if r is True or (r is not False and self.truth(r)):
+                        return v[k]
+                self.raise_py("KeyError", SymStr("<symbolic key>"))
             self.check_key(idx)
             if isinstance(idx, Obj):
                 for k in v:
